@@ -584,4 +584,39 @@ theorem addMonths_int_pre1970_form (d : Date) (k : Int) (hv : d.valid) (hne : d.
   simp only [this]
   exact monthToId_mk _ _
 
+/-- integer offsets, closed form of the DAY: day = round-half-even(day / days-in-month × days in the target month) -/
+theorem addMonths_int_day_form (d : Date) (k : Int) (hv : d.valid) (h : 0 ≤ monthToId d + k) :
+    addMonths d ((k : Int) : Rat) = ⟨yearOf (monthToId d + k), monthOf (monthToId d + k),
+      (roundHalfEven ((d.d : Rat) / (dim d.y d.m : Rat)
+        * (dim (yearOf (monthToId d + k)) (monthOf (monthToId d + k)) : Rat))).toNat⟩ := by
+  obtain ⟨h1, h2, h3, h4⟩ := (valid_iff d).mp hv
+  rw [addMonths_eq_lag, finalLag_int]
+  generalize hMdef : monthToId d + k = M at *
+  have hn : (0 : Rat) < (dim d.y d.m : Rat) := by exact_mod_cast dim_pos _ _
+  have hn' : (0 : Rat) < (dim (yearOf M) (monthOf M) : Rat) := by exact_mod_cast dim_pos _ _
+  rcases Nat.lt_or_eq_of_le h4 with hlt | heq
+  · have hd0 : (0 : Rat) < (d.d : Rat) := by exact_mod_cast h3
+    have hf0 : (0 : Rat) < (d.d : Rat) / (dim d.y d.m : Rat) := div_pos hd0 hn
+    have hf1 : (d.d : Rat) / (dim d.y d.m : Rat) < 1 := by rw [div_lt_one hn]; exact_mod_cast hlt
+    rw [addMonthsLag_frac M _ h hf0 hf1]
+    have b1 := dim_bounds d.y d.m
+    have b2 := dim_bounds (yearOf M) (monthOf M)
+    have hge : (1 : Rat) / 2 < (d.d : Rat) / (dim d.y d.m : Rat) * (dim (yearOf M) (monthOf M) : Rat) := by
+      have h28 : (28 : Rat) ≤ (dim (yearOf M) (monthOf M) : Rat) := by exact_mod_cast b2.1
+      have h31 : (dim d.y d.m : Rat) ≤ 31 := by exact_mod_cast b1.2
+      have hd1 : (1 : Rat) ≤ (d.d : Rat) := by exact_mod_cast h3
+      rw [div_mul_eq_mul_div, lt_div_iff₀ hn]
+      nlinarith
+    have r1 := roundHalfEven_ge_one hge
+    have : (roundHalfEven ((d.d : Rat) / (dim d.y d.m : Rat) * (dim (yearOf M) (monthOf M) : Rat)) == 0) = false := by
+      simp; omega
+    simp [this]
+  · have hf : (d.d : Rat) / (dim d.y d.m : Rat) = 1 := by rw [heq]; exact div_self (ne_of_gt hn)
+    rw [hf, addMonthsLag_int M h, one_mul]
+    have hr : roundHalfEven ((dim (yearOf M) (monthOf M) : Nat) : Rat)
+        = ((dim (yearOf M) (monthOf M) : Nat) : Int) := by
+      have := roundHalfEven_intCast ((dim (yearOf M) (monthOf M) : Nat) : Int)
+      simpa using this
+    rw [hr, Int.toNat_natCast]
+
 end Bermuda
